@@ -96,6 +96,10 @@ ACC = u'éÉàÀçÇñÑüÜøØßÿŸſŉĳĲǅǆǄȀɏİǰıµªº '
 CJK = u'中一鿿'
 
 
+LOOKALIKES = ['12.0', '7.', '.0', '3.00', '1e2', '2.50', '007', '-0', '+5', '1E3', '12.50', '100.', '0.0', '  12', '1,000', 'TRUE', 'true',
+              'False', '#N/A', '#DIV/0!', '1/2', '2020-01-01', '12:30', '1e400', '0x10', 'None', '50%', '1.0e-3']
+
+
 def rstr(rng, lo=0, hi=12, alpha=None):
     alpha = alpha or (ASCII + ASCII + '   ' + CTRL + ACC + CJK)
     return ''.join(rng.choice(alpha) for _ in range(rng.randint(lo, hi)))
@@ -293,6 +297,11 @@ def explore(ctx):
         if rng.random() < 0.3:
             s = spacey(rng)
         t = rstr(rng, 0, 6)
+        # texts that LOOK like numbers, logicals, errors or dates are texts all the same (no law below may re-read them)
+        if rng.random() < 0.15:
+            s = rng.choice(LOOKALIKES)
+        if rng.random() < 0.15:
+            t = rng.choice(LOOKALIKES)
         old = rstr(rng, 1, 3, 'abAB 1') if rng.random() < 0.5 else (s[rng.randint(0, len(s)):][:rng.randint(1, 3)] if s else 'a')
         base_new = rstr(rng, 0, 3, 'xyab ')
         work.append(('string', (s, rng.randint(-2, len(s) + 5), t, old, base_new, rng.randint(0, 5))))
